@@ -176,7 +176,7 @@ def crashed(ctx, props, label):
 
 def validate(ctx, tracefile, defects=''):
     """Run H2ServerTrace on the merged trace file; returns {trace id: [clauses]}."""
-    r = ctx.validate('H2ServerTrace', tracefile, env={'VERIF_DEFECTS': defects})
+    r = ctx.validate('H2ServerTrace', tracefile, env={'VERIF_DEFECTS': defects}, chunk=2500)
     bad = {}
     for s in r.printed('BAD'):
         m = re.match(r'(\d+) (.*)$', s, re.S)
@@ -204,6 +204,10 @@ def confirmed(ctx, scenario, clause, run_and_validate, tries=2):
         if any(c.split(' ')[0] == cid for cl in bad.values() for c in cl):
             return True
     ctx.extra.setdefault('unconfirmed_clauses', []).append(clause[:200])
+    try:
+        ctx.save_finding('unconfirmed_' + re.sub(r'[^A-Za-z0-9]+', '_', cid)[:40], {'kind': 'unconfirmed', 'clause': clause, 'scenario': scenario})
+    except Exception:
+        pass
     print('UNCONFIRMED property=%s clause=%s (not reproduced in %d replays of the scenario; not counted)' % (ctx.prop, clause[:160], tries), flush=True)
     return False
 
@@ -224,11 +228,16 @@ def judge(ctx, scenarios, tracefile, props=None, label='srv', confirm=True):
         tr, _ = run_harness(ctx, scs, lab, shards=1)
         b, _ = validate(ctx, tr)
         return b
+    xseen = 0
     for t, clauses in sorted(bad.items()):
         for c in clauses:
             p = clause_prop(c)
             if p == 'X':
-                ctx.inconclusive.append('trace %d: %s' % (t, c))
+                # a harness-level trouble (quiescence not reached in time, driver panic) makes the run inconclusive only if
+                # it happens again when the scenario is replayed on its own: under load one slow scheduling turn is enough
+                if (not confirm) or xseen < 3 and confirmed(ctx, byid.get(t), c, rerun):
+                    ctx.inconclusive.append('trace %d: %s' % (t, c))
+                xseen += 1
                 continue
             if p in props or any(c.startswith(x) for x in props if ':' in x):
                 cls = classify(c)
